@@ -61,6 +61,9 @@ namespace vf
       bool custom_tags = true;
       bool depth_surfaces = false;     // point-wise min/max depth of area features
       bool water = false;              // tian water content models
+      double hub_spread_km = 300;      // features are centred within this distance of a common hub
+      bool top_truncation = true;      // slabs may have a top truncation
+      bool line_model_ranges = true;   // per-model distance ranges on slab/fault models
     };
 
     inline const std::string &default_tag(const std::string &type) { return type; }
@@ -150,6 +153,7 @@ namespace vf
     inline void maybe_range(Chooser &ch, const Opt &o, const FM &m, J &model)
     {
       if (!o.model_ranges || !ch.chance(40)) return;
+      if (m.line() && !o.line_model_ranges) return;
       if (m.line())
         {
           // distance from the slab top / fault centre
@@ -428,7 +432,7 @@ namespace vf
       return v;
     }
 
-    inline J segments_json(Chooser &ch, const std::string &type, double &total_len, double &max_thick, int nseg = 0)
+    inline J segments_json(Chooser &ch, const std::string &type, double &total_len, double &max_thick, int nseg = 0, bool top_truncation = true)
     {
       J segs = J::arr();
       if (nseg == 0) nseg = static_cast<int>(ch.range(1, 3));
@@ -447,7 +451,7 @@ namespace vf
           const double a2 = ch.chance(50) ? a_prev : ch.lattice(15, 80, 5);
           s["angle"] = (a_prev == a2 && ch.flip()) ? J::arr({J(a_prev)}) : J::arr({J(a_prev), J(a2)});
           a_prev = a2;
-          if (type == "subducting plate" && ch.chance(25)) { const double tt = ch.lattice(-20e3, 20e3, 5e3); s["top truncation"] = J::arr({J(tt)}); }
+          if (top_truncation && type == "subducting plate" && ch.chance(25)) { const double tt = ch.lattice(-20e3, 20e3, 5e3); s["top truncation"] = J::arr({J(tt)}); }
           segs.push(s);
         }
       return segs;
@@ -474,7 +478,7 @@ namespace vf
       m.dmin = ch.chance(75) ? 0 : ch.lattice(10e3, 200e3, 10e3);
       if (m.dmin != 0) feat["min depth"] = m.dmin;
       double tl = 0, mt = 0;
-      feat["segments"] = segments_json(ch, type, tl, mt);
+      feat["segments"] = segments_json(ch, type, tl, mt, 0, o.top_truncation);
       m.reach = tl + mt;
       m.dmax = m.dmin + m.reach;
       add_models(ch, f, o, m, feat);
@@ -509,7 +513,7 @@ namespace vf
           FM m;
           std::array<double, 2> c = hub;
           const double km = w.fr.km();
-          if (o.overlap && ch.chance(80)) { c[0] += std::round(ch.real(-300, 300)) * km * (w.fr.sph ? 1 : 1); c[1] += std::round(ch.real(-300, 300)) * km; }
+          if (o.overlap && ch.chance(85)) { c[0] += std::round(ch.real(-o.hub_spread_km, o.hub_spread_km)) * km; c[1] += std::round(ch.real(-o.hub_spread_km, o.hub_spread_km)) * km; }
           else c = gen_centre(ch, w.fr);
           if (w.fr.sph) { c[0] = std::round(c[0] * 4) / 4; c[1] = std::max(-60.0, std::min(60.0, std::round(c[1] * 4) / 4)); }
           else { c[0] = std::round(c[0] / 1e3) * 1e3; c[1] = std::round(c[1] / 1e3) * 1e3; }
@@ -559,7 +563,8 @@ namespace vf
       if (!m)
         {
           std::array<double, 2> c = w.feats.empty() ? std::array<double, 2>{{0, 0}} : w.feats[ch.index(w.feats.size())].kernel;
-          const double a = c[0] + ch.real(-1500, 1500) * km, b = c[1] + ch.real(-1500, 1500) * km;
+          const double spread = ch.flip() ? 300 : 1500;
+          const double a = c[0] + ch.real(-spread, spread) * km, b = c[1] + ch.real(-spread, spread) * km;
           return make_query(f, f.sph ? std::max(-359.0, std::min(359.0, a)) : a, f.sph ? std::max(-89.0, std::min(89.0, b)) : b, ch.chance(15) ? 0.0 : ch.real(0, 700e3));
         }
       if (m->area())
